@@ -70,10 +70,14 @@ def wl_initialize(ctx, config):
         if r is not None: ctx.check(r.ret == 0, "surj_initialize:illegal_counts_accepted", "n=%d use=%d" % (nin, use), config)
 
 class Scene:
-    """ephemeral tags with known blinding keys"""
+    """ephemeral tags with known blinding keys (0 = unblinded tag, allowed for either side)"""
     def __init__(self, ctx, config, rng, nin, pos, eq_out=False):
         self.out_tag = pools.rbytes(rng, 32); self.tags = mk_tags(rng, nin, pos, self.out_tag)
         self.in_keys = [rng.randrange(1, n) for _ in range(nin)]; self.out_key = rng.randrange(1, n)
+        z = rng.random()
+        if z < 0.12 and pos: self.in_keys[pos[0]] = 0              # the matching input is an unblinded tag
+        elif z < 0.24: self.out_key = 0                            # the output is an unblinded tag
+        elif z < 0.30: self.in_keys[rng.randrange(nin)] = 0
         self.in_pts = []; self.in_obj = []
         for t, k in zip(self.tags, self.in_keys):
             ok, P = zkp.generate(t, b32(k)); self.in_pts.append(P)
